@@ -31,6 +31,7 @@ VIEWS = ["getitem", "reshape", "ravel", "squeeze", "expand_dims", "broadcast_to"
 NONVIEW_SHAPE = ["flatten", "roll", "repeat", "getitem_adv", "cumsum", "cumprod", "softmax", "logsoftmax",
                  "glu", "norm", "clip", "where"]
 NARY = ["concatenate", "stack", "add_sequence", "multiply_sequence", "einsum", "matmul", "op_matmul"]
+NARY_DRAW = NARY + ["einsum", "einsum"]  # (einsum keeps per-op state keyed by operand identity: drawn more often)
 
 MAXVAL = 60.0
 
@@ -702,7 +703,7 @@ def step_shape_nonview(b: Builder, name=None):
 
 def step_nary(b: Builder, name=None):
     d = b.draw
-    name = name or d(st.sampled_from(NARY + ["multi_matmul"]))
+    name = name or d(st.sampled_from(NARY_DRAW + ["multi_matmul"]))
     # (einsum can return a view: in histories it is only applied to tensors, like every view op)
     fl = b.float_handles(tensors_only=b.views_tensors_only and name == "einsum")
     a = b.pick(fl)
@@ -795,7 +796,8 @@ def _einsum_step(b, a, fl):
     if mode == 1:
         # same-shape partner (possibly the same tensor object): elementwise / full contraction
         same = [h for h in fl if b.shape(h) == shp]
-        c = b.pick(same) or a
+        # the very same tensor twice half of the time (einsum de-duplicates identical operand/label pairs)
+        c = a if d(st.booleans()) else (b.pick(same) or a)
         out = d(st.sampled_from([letters, "", letters[0], letters[-1], letters[::-1]]))
         subs = f"{letters},{letters}->{out}"
         return b.op("einsum", [a, c], {"subs": subs, "optimize": d(st.booleans())})
@@ -1041,7 +1043,7 @@ def step_shape_assign(b: Builder):
 
 
 def step_read(b: Builder):
-    f = b.draw(st.sampled_from([step_unary, step_binary, step_binary, step_reduce, step_shape_nonview, step_nary]))
+    f = b.draw(st.sampled_from([step_unary, step_binary, step_binary, step_reduce, step_shape_nonview, step_nary, step_nary]))
     return f(b)
 
 
